@@ -106,6 +106,7 @@ func propC08(w *World, r *Run) {
 }
 
 func propC09(w *World, r *Run) {
+	r.exhaustive = true // finite space enumerated completely (decision-table cells / configuration entries / loop-free paths of Update)
 	r.expl = "Decides the protocol decision table exhaustively over a finite abstraction that is exact for this code: cells = known x signature-valid x stored{NotFound,found} x every weak ordering of (0, old size, stored size, submitted size) x rootEq x proofOK x proofEmpty; each cell must be answered by exactly one fault-free path of Update whose (error sentinel, bytes class) equals the first-match table transcribed from the property (DECISION-TABLE). The premise that sizes are only compared (never computed with) is checked (TOUCH-BY-COMPARISON); the bastion's sentinel switch covers every sentinel Update can return, by identity (SENTINEL-EXHAUSTIVE)."
 	r.notdec = []string{"that proofOK agrees with an independent RFC 6962 verifier (VerifyConsistency's contract is trusted)", "first use with old != 0 or a non-empty proof, and 0 = stored < submitted (outside the property's claim; the latter is C08)"}
 	r.trusted = append(tbCommon, "merkle/proof.VerifyConsistency contract (equal sizes: nil iff proof empty and roots equal)")
@@ -116,6 +117,7 @@ func propC09(w *World, r *Run) {
 }
 
 func propC20(w *World, r *Run) {
+	r.exhaustive = true // finite space enumerated completely (decision-table cells / configuration entries / loop-free paths of Update)
 	r.expl = "Decides, over every path of Update and with counters identified by the metric name constant they are created with: witness_update_request incremented exactly once on every path past the known-log test and never on the unknown path; witness_update_success exactly once iff the path returns a nil error; witness_update_invalid_consistency exactly once iff it returns ErrInvalidProof; witness_update_inconsistent_checkpoints exactly once iff it returns ErrRootMismatch; no other Inc (OUTCOME-COUNTER); the label is exactly the request's log ID (LABEL); each counter variable is assigned once from NewCounter inside Once.Do (NAME-BINDING); constructors call initMetrics and are the only construction sites (INITIALISED-BEFORE-USE)."
 	r.notdec = []string{"the metric backend (prometheus) itself"}
 	r.trusted = append(tbCommon, "monitoring.Counter.Inc adds one")
@@ -273,6 +275,7 @@ func init() {
 }
 
 func propC17(w *World, r *Run) {
+	r.exhaustive = true // finite space enumerated completely (decision-table cells / configuration entries / loop-free paths of Update)
 	r.expl = "Decides exhaustively over a finite set: every entry of every YAML file that a go:embed directive of package omniwitness names (working-tree content) is validated: its public key is parsed by the very function production code uses (formats/note.NewVerifier), its origin's ID is unique within the file, its feeder name is a key of the feederByName registry (after the normalisation ParseFeeder applies), and its URL passes the checks its feeder makes at start: url.Parse, the query parameter the rekor feeder insists on, the schemes for which the serverless feeder does not panic, an absolute http(s) URL for the HTTP-only feeders. All constraint sets are extracted from the repository's code on every run, not frozen in the checker. Code side: FeedFunc covers every registry value other than none; ParseFeeder/UnmarshalYAML fail on unknown names; Main routes every entry through config.NewLog and AsLogMap and aborts on the first error before anything is launched."
 	r.notdec = []string{"that the remote logs exist or that the keys are the right ones", "URL trailing-slash conventions of relative tile paths"}
 	r.trusted = append(tbCommon, "formats/note.NewVerifier, formats/log.ID, net/url.Parse, gopkg.in/yaml.v3 (pinned libraries, used as the production code uses them)")
